@@ -631,6 +631,8 @@ M('C08', 'uri-bytes-constructor-utf16', SS, '        _bytes += self.uri.encode()
   "        _bytes += bytes(self.uri, 'utf-16')\n        return _bytes", 'C08.f')
 M('C08', 'filename-str-constructor-latin1', PK, '        self.filename = packet[:fnl].decode()\n',
   "        self.filename = str(packet[:fnl], 'latin-1')\n", 'C08.f')
+M('C08', 'signer-hex-digits-utf16', PK, "        self._signer = binascii.hexlify(val).upper().decode('latin-1')",
+  '        self._signer = val.hex().upper()', 'C08.f', more=[(PK, '        _bytes += binascii.unhexlify(self.signer.encode("latin-1"))', '        _bytes += binascii.unhexlify(self.signer.encode("utf-16"))')])
 M('C08', 'uid-writer-codec-swapped', PK, "textenc = 'utf-8' if not self._encoding_fallback else 'charmap'",
   "textenc = 'utf-8' if self._encoding_fallback else 'charmap'", 'C08.f')
 M('C08', 'uid-writer-ignores-fallback', PK, "textenc = 'utf-8' if not self._encoding_fallback else 'charmap'",
@@ -751,6 +753,10 @@ T('C08', 'twin-pkesk-pkalg-get', PK, '        ct = _c.get(self._pkalg, None)\n  
   '        ctcls = _c.get(self._pkalg)\n        if ctcls is None:\n            self.ct = None\n\n        else:\n            self.ct = ctcls()\n', more=[(PK, "        _bytes += self.ct.__bytearray__() if self.ct is not None else b'\\x00' * (self.header.length - 10)\n", "        if self.ct is not None:\n            _bytes += self.ct.__bytearray__()\n\n        else:\n            _bytes += b'\\x00' * (self.header.length - 10)\n")])
 T('C08', 'twin-hashed-area-peek-spelling', FL, '        hl = self.bytes_to_int(packet[:2])\n        hashed_raw = packet[:2 + hl]\n        del packet[:2]\n',
   '        count_octets = packet[:2]\n        hl = self.bytes_to_int(count_octets)\n        area_end = hl + 2\n        hashed_raw = packet[:area_end]\n        del packet[:2]\n')
+T('C08', 'twin-signer-hex-method', PK, "        self._signer = binascii.hexlify(val).upper().decode('latin-1')",
+  '        self._signer = val.hex().upper()')
+T('C08', 'twin-signer-hex-fromhex', PK, "        self._signer = binascii.hexlify(val).upper().decode('latin-1')",
+  '        self._signer = val.hex().upper()', more=[(PK, '        _bytes += binascii.unhexlify(self.signer.encode("latin-1"))', '        _bytes += bytearray.fromhex(self.signer)')])
 T('C08', 'twin-skesk-remainder-locals', PK, '        ctend = self.header.length - len(self.s2k)\n        self.ct = packet[:ctend]\n        del packet[:ctend]\n',
   '        s2k_len = len(self.s2k)\n        total = self.header.length\n        self.ct = packet[:total - s2k_len]\n        del packet[:total - s2k_len]\n')
 T('C08', 'twin-elg-alias-guard-clause', FL, '        if not self.s2k:\n            self.x = MPI(packet)\n\n            if self.s2k.usage == 0:\n                self.chksum = packet[:2]\n                del packet[:2]\n\n        else:\n            self.encbytes = packet\n\n    def decrypt_keyblob(self, passphrase):\n        kb = super(ElGPriv, self).decrypt_keyblob(passphrase)',
